@@ -78,6 +78,9 @@ def impl_tree(parsed, defs, secs, off=0):
             if defs[d] == "Group":
                 a = go(n["right"], depth + 1)
                 return None if (a is None or n["left"] is not None) else "G%d(%s)" % (tok, a)
+            if defs[d] == "NestedExpression":
+                a = go(n["right"], depth + 1)
+                return None if (a is None or n["left"] is not None) else "N%d(%s)" % (tok, a)
             return None
         if sec in ("BinaryLeftToRight", "BinaryRightToLeft", "OptionalBinaryLeftToRight"):
             l, r = go(n["left"], depth + 1), go(n["right"], depth + 1)
